@@ -157,6 +157,15 @@ MUTANTS = [
      [(CO + "execution/v2/mod.rs",
        "        if firm_executed_block_metadata.number() > soft_executed_block_metadata.number() {",
        "        if firm_executed_block_metadata.number() > soft_executed_block_metadata.number().saturating_add(1) {", 0)]),
+    ("C11-pending-height-reported", "S5", "a GetTx response with height 0 (still pending) is reported as confirmed",
+     [(RL + "relayer/celestia_client/mod.rs", "    if tx_response.height == 0 {\n        trace!(tx_hash = %tx_response.txhash, \"transaction still pending\");",
+       "    if tx_response.height < 0 {\n        trace!(tx_hash = %tx_response.txhash, \"transaction still pending\");", 0)]),
+    ("C16-queue-capacity-off-by-one", "G3", "finished queue accepts one bundle more than its capacity",
+     [(CP + "executor/bundle_factory/mod.rs", "                if self.finished.len() >= self.finished_queue_capacity {",
+       "                if self.finished.len() > self.finished_queue_capacity {", 0)]),
+    ("C12-take-leaves-input", "T2", "take() moves the payload out but leaves the accumulated input behind",
+     [(RL + "relayer/write/conversion.rs", "        let input = std::mem::take(&mut next.input);\n",
+       "        let input = next.input.clone();\n", 0)]),
     ("C08-right-child-midpoint", "M4", "re-attached right child taken as the midpoint of the remaining nodes",
      [(MK + "lib.rs",
        "        let root = complete_root(n.checked_sub(i_plus_one).unwrap());\n        i_plus_one.checked_add(root).unwrap()",
